@@ -7,6 +7,7 @@ import (
 	"hop.computer/hop/certs"
 	"hop.computer/hop/config"
 	"hop.computer/hop/keys"
+	"hop.computer/hop/pkg/glob"
 	"hop.computer/hop/transport"
 )
 
@@ -109,5 +110,137 @@ func VH_C10_server_name_lookup_never_panics() {
 		verifCover("matched")
 	} else {
 		verifCover("no-match")
+	}
+}
+
+// ---- the glue around VirtualHosts.Match ----
+
+var c20Made int
+
+func c20MakeCert(k *keys.X25519KeyPair, leaf, inter *certs.Certificate, kem *keys.KEMKeyPair) (*transport.Certificate, error) {
+	c20Made++
+	return &transport.Certificate{RawLeaf: []byte{byte(c20Made)}}, nil
+}
+
+// NewVirtualHosts turns the configured host blocks into the ordered list that
+// Match scans: one entry per block, in configuration order, then the "*"
+// fallback - and nothing else (a phantom entry with an empty pattern would
+// answer the empty name with no certificate).
+//
+//verif:prop C20
+//verif:replay none
+//verif:stub hop.computer/hop/transport.MakeCert = c20MakeCert
+//verif:bounds server configuration with 0..3 host blocks (patterns from {"*.example.com", "a", ""}), with or without the top-level key that yields the "*" fallback; certificate parsing replaced by a counter
+//verif:cover built
+func VH_C20_virtual_host_list_is_exactly_the_configured_blocks_in_order() {
+	c20Made = 0
+	pats := []string{"*.example.com", "a", ""}
+	sc := &config.ServerConfig{}
+	n := verifPick("host-blocks", 0, 1, 2, 3)
+	for i := 0; i < n; i++ {
+		sc.Names = append(sc.Names, config.NameConfig{Pattern: pats[verifPick("pattern", 0, 1, 2)]})
+	}
+	fallback := verifBool("fallback-key")
+	if fallback {
+		sc.Key = &keys.X25519KeyPair{}
+		sc.Certificate = &certs.Certificate{Type: certs.Leaf}
+	}
+	vh, err := NewVirtualHosts(sc, nil, nil)
+	verifAssert(err == nil, "C20: the virtual-host list is built")
+	if err != nil {
+		return
+	}
+	want := n
+	if fallback {
+		want++
+	}
+	verifAssert(len(vh) == want, "C20: one virtual host per configured block plus the fallback, and no other entry")
+	if len(vh) != want {
+		return
+	}
+	for i := 0; i < n; i++ {
+		verifAssert(vh[i].Pattern == sc.Names[i].Pattern && len(vh[i].Certificate.RawLeaf) == 1 && int(vh[i].Certificate.RawLeaf[0]) == i+1, "C20: virtual hosts keep the order and the certificates of the configuration (first match wins)")
+	}
+	if fallback {
+		verifAssert(vh[n].Pattern == "*", "C20: the fallback comes last and matches everything")
+	}
+	verifCover("built")
+}
+
+// The certificate lookup NewHopServer installs: for EVERY requested name -
+// any label bytes, any name type (DNS, IPv4, IPv6, raw) - it presents the
+// first virtual host whose pattern matches the LABEL.
+//
+//verif:prop C20
+//verif:replay none
+//verif:stub hop.computer/hop/hopserver.NewVirtualHosts = c10NewVirtualHosts
+//verif:stub net.ListenPacket = c10ListenPacket
+//verif:stub hop.computer/hop/transport.NewServer = c10NewServer
+//verif:stub hop.computer/hop/hopserver.NewHopServerExt = c10NewHopServerExt
+//verif:bounds 0..2 host blocks (patterns from {"*", "10.0.0.*", "a"}); requested name: label "10.0.0.5", "a" or one symbolic byte, type byte over all 256 values
+//verif:cover matched;no-match
+func VH_C20_server_presents_first_vhost_matching_the_requested_label() {
+	c10Hosts = nil
+	pats := []string{"*", "10.0.0.*", "a"}
+	n := verifPick("host-blocks", 0, 1, 2)
+	for i := 0; i < n; i++ {
+		c10Hosts = append(c10Hosts, VirtualHost{Pattern: pats[verifPick("pattern", 0, 1, 2)]})
+	}
+	_, err := NewHopServer(&config.ServerConfig{ListenAddress: "localhost:0", InsecureSkipVerify: true})
+	verifAssert(err == nil && c10Captured.GetCertificate != nil, "C20: NewHopServer installs a certificate lookup")
+	var label []byte
+	switch verifPick("label", 0, 1, 2) {
+	case 0:
+		label = []byte("10.0.0.5")
+	case 1:
+		label = []byte("a")
+	default:
+		label = verifBytes("label-byte", 1)
+	}
+	name := certs.Name{Label: label, Type: certs.IDType(verifU8("name-type"))}
+	c, err := c10Captured.GetCertificate(transport.ClientHandshakeInfo{ServerName: name})
+	want := -1
+	for i := n - 1; i >= 0; i-- {
+		if glob.Glob(c10Hosts[i].Pattern, string(label)) {
+			want = i
+		}
+	}
+	if want < 0 {
+		verifAssert(err != nil, "C20: no certificate is presented when no pattern matches the requested label")
+		verifCover("no-match")
+		return
+	}
+	verifCover("matched")
+	verifAssert(err == nil && c == &c10Hosts[want].Certificate, "C20: the server presents the FIRST virtual host whose pattern matches the requested label, whatever the name's type")
+}
+
+// C19: hidden mode is what the hidden virtual-host list says it is.
+//
+//verif:prop C19
+//verif:replay none
+//verif:stub hop.computer/hop/hopserver.NewVirtualHosts = c10NewVirtualHosts
+//verif:stub net.ListenPacket = c10ListenPacket
+//verif:stub hop.computer/hop/transport.NewServer = c10NewServer
+//verif:stub hop.computer/hop/hopserver.NewHopServerExt = c10NewHopServerExt
+//verif:bounds hopd configuration with 0..2 hidden virtual-host names, top-level KEM key present or absent (a hidden host may carry its own)
+//verif:cover hidden;discoverable
+func VH_C19_transport_server_is_hidden_iff_hidden_vhosts_are_configured() {
+	c10Hosts = VirtualHosts{{Pattern: "h"}, {Pattern: "*"}}
+	sc := &config.ServerConfig{ListenAddress: "localhost:0", InsecureSkipVerify: true}
+	k := verifPick("hidden-vhost-names", 0, 1, 2)
+	for i := 0; i < k; i++ {
+		sc.HiddenModeVHostNames = append(sc.HiddenModeVHostNames, "h")
+	}
+	if verifBool("top-level-kem-key") {
+		sc.KEMKey = &keys.KEMKeyPair{}
+	}
+	_, err := NewHopServer(sc)
+	verifAssert(err == nil, "C19: NewHopServer succeeds")
+	verifAssert(c10Captured.IsHidden == (k > 0), "C19: the transport server runs hidden (silent to everything but hidden requests) exactly when hidden virtual hosts are configured - a hidden host must never be served by a discoverable server that answers ClientHellos")
+	verifAssert(len(c10Captured.HiddenModeVHostNames) == k, "C19: the hidden virtual-host names reach the transport server")
+	if k > 0 {
+		verifCover("hidden")
+	} else {
+		verifCover("discoverable")
 	}
 }
